@@ -254,5 +254,5 @@ def corr_cases(run, todo, name='fit', shard=40):
                           shape=list(c['src'].shape), note=c.get('note', ''),
                           src=np.where(np.isnan(c['src']), -9999, c['src']).tolist(),
                           ref=np.where(np.isnan(c['ref']), -9999, c['ref']).tolist()))
-    failing, nt = run.corr(name, 'Corr.CheckC01', cases, shard=shard)
+    failing, nt = run.corr(name, 'Corr.CheckC01', cases, shard=shard, both='check_nt')
     return [metas[k] for k in failing], nt, len(cases)
